@@ -810,6 +810,7 @@ WITNESSES = {
         ("F_skipTagNew", mk_spec([F("Age", INT)], [F("age", INT, "-")], way="to", dest_kind="new")),
         ("F_ctorNoSub", mk_spec([F("Addr", SRC_SUB)], [F("addr", DEST_SUB, get=True)], way="to", dest_kind="new")),
         ("F_ctorTag", mk_spec([F("caption", STR, "Title", get=True)], [F("Title", STR)], way="from", src_kind="new")),
+        ("F_ctorZeroAny", mk_spec([F("ID", INT)], [F("id", INT), F("extra", ANY)], way="to", dest_kind="new")),
     ],
 }
 
@@ -989,10 +990,17 @@ def c01_leg(ctx, res, n):
     for sides in (("dest",), ("src",), ("src", "dest")):
         for k in range(2):
             plan.append(("type", dict(base, embeds=0.0, shadow=0.0, unexported=0.0, names=["ident"] * 4 + ["acronym", "tag"]), sides))
+    # 4. multi-type runs whose FIRST type is (mapped to) a shoot-new type and whose second is plain: constructor parameters and
+    #    accessor lists must not carry over to the second type
+    for sides in (("dest",), ("src",), ("src", "dest")):
+        plan.append(("list", dict(base, embeds=0.0, shadow=0.0, unexported=0.0, names=["ident"] * 4 + ["acronym"]), sides))
     plan = plan[:n]
     while len(plan) < n:
         r = rng.random()
-        if r < 0.25:
+        if r < 0.1:
+            sides = rng.choice([("dest",), ("src",), ("src", "dest")])
+            plan.append(("list", dict(base, embeds=0.0, shadow=0.0, unexported=0.0), sides))
+        elif r < 0.3:
             sides = rng.choice([("dest",), ("src",), ("src", "dest")])
             plan.append(("type", dict(base, embeds=0.0, shadow=0.0, unexported=0.0), sides))
         else:
